@@ -690,20 +690,76 @@ pub fn collision_calls(r: i32) -> Vec<Call> {
     calls
 }
 
+fn block_sizes(c: &Call) -> Vec<usize> {
+    match c {
+        Call::Uncompact(l, t) => l.iter().map(|&x| rc::fanout(rc::resolution(x).unwrap(), *t) as usize).collect(),
+        _ => vec![],
+    }
+}
+fn canonical_blocks(c: &Call, mut v: Vec<u64>) -> Vec<u64> {
+    let sizes = block_sizes(c);
+    if sizes.iter().sum::<usize>() != v.len() {
+        return v;
+    }
+    let mut off = 0;
+    for k in sizes {
+        v[off..off + k].sort_unstable();
+        off += k;
+    }
+    v
+}
+fn want_blocks(c: &Call, w: &[u64]) -> Vec<u64> {
+    if matches!(c, Call::Uncompact(..)) {
+        canonical_blocks(c, w.to_vec())
+    } else {
+        w.to_vec()
+    }
+}
+
+/// expansions of the coarsest cells to every small target, through both entry points: many distinct
+/// (cell, target) keys, each repeated after every other one (a small cache that evicts or mixes entries
+/// once it is full meets every fill order)
+pub fn expansion_calls(tier: &str) -> Vec<Call> {
+    let base = rc::all_cells(0);
+    let q = rc::children(base[6])[1];
+    let tmax = if tier == "quick" { 5 } else { 6 };
+    let mut calls = Vec::new();
+    for t in -1..=tmax {
+        calls.push(Call::Uncompact(vec![0], t));
+        calls.push(Call::Children(0, Some(t)));
+        if t >= 0 {
+            calls.push(Call::Uncompact(vec![base[6]], t));
+            calls.push(Call::Children(base[11], Some(t)));
+        }
+        if t >= 1 {
+            calls.push(Call::Uncompact(vec![q, base[2]], t));
+        }
+    }
+    calls.push(Call::Uncompact(vec![0, base[3]], 1));
+    calls.push(Call::Uncompact(vec![base[3], 0], 2));
+    calls
+}
+
 pub fn collision_circuits(tier: &str, class: &str) -> (u64, Vec<Viol>) {
     let ress: &[i32] = if tier == "quick" { &[14, 28, 29] } else { &[5, 9, 14, 17, 20, 25, 27, 28, 29] };
-    let res: Vec<(u64, Vec<Viol>)> = ress
+    let mut fams: Vec<Vec<Call>> = ress.iter().map(|&r| collision_calls(r)).collect();
+    fams.push(expansion_calls(tier));
+    let res: Vec<(u64, Vec<Viol>)> = fams
         .par_iter()
-        .map(|&r| {
-            let calls = collision_calls(r);
+        .map(|calls| {
+            let calls = calls.clone();
             let class = class.to_string();
             std::thread::scope(|sc| {
                 sc.spawn(move || {
+                    // (uncompact keeps input order: compare unsorted; the other calls as sets)
+                    let keep_order = |c: &Call| matches!(c, Call::Uncompact(..));
                     let want: Vec<Vec<u64>> = calls
                         .iter()
                         .map(|c| {
                             let mut w = c.expect();
-                            w.sort_unstable();
+                            if !keep_order(c) {
+                                w.sort_unstable();
+                            }
                             w
                         })
                         .collect();
@@ -712,9 +768,14 @@ pub fn collision_circuits(tier: &str, class: &str) -> (u64, Vec<Viol>) {
                         for b in 0..calls.len() {
                             let _ = calls[a].run();
                             let mut got = calls[b].run().unwrap_or_default();
-                            got.sort_unstable();
+                            if !keep_order(&calls[b]) {
+                                got.sort_unstable();
+                            } else {
+                                // per-input blocks as sets: order inside a block is not specified
+                                got = canonical_blocks(&calls[b], got);
+                            }
                             n += 1;
-                            if got != want[b] {
+                            if got != want_blocks(&calls[b], &want[b]) {
                                 return (
                                     n,
                                     vec![viol(
